@@ -76,6 +76,15 @@ def texts(rng, tier):
         yield b"[" + s + b"]"
     for _ in range(300 if tier == "quick" else 20000):
         yield tokgen.gen_number(rng)
+    # short mantissas against every decimal exponent: the region where a conversion could take a shortcut through exact powers of
+    # ten (10^22 is the last exact one), and the edges of the double range (round-8 seed C01-14)
+    mants = ["1", "7", "3", "15", "841", "9007", "123456789012345", "999999999999999", "72057594037927", "5"]
+    exps = list(range(-45, 46)) + ([-330, -324, -323, -308, -307, 290, 300, 307, 308, 309] if tier == "quick" else list(range(-345, -45)) + list(range(46, 330)))
+    for e in exps:
+        forms = []
+        for m in mants:
+            forms += ["%se%d" % (m, e), "%sE%+d" % (m, e), "%s.5e%d" % (m, e - 1), "0.%se%d" % (m, e + len(m)), "-%s.25e%d" % (m, e)]
+        yield ("[" + ",".join(forms) + "]").encode()
     # escapes: sampled in quick, exhaustive units in thorough
     units = range(0, 0x10000, 257) if tier == "quick" else range(0x10000)
     for u in units:
